@@ -975,6 +975,84 @@ fn main() {
             },
         );
 
+        // range boundary of into_bytes: every bit bound (aligned or not) x every n around bound/8 x
+        // values just inside / outside 2^(8n); bounds reached by a load or by an addition
+        {
+            use HOp::*;
+            let mut cases = vec![];
+            let one = BigUint::from(1u32);
+            let mut widths: Vec<u32> = (2..=p.tier.pick(40, 130)).collect();
+            widths.extend([63, 65, 95, 97, 127, 129, 255, 257, 300]);
+            widths.sort();
+            widths.dedup();
+            for w in widths {
+                let lo = (w / 8) as usize;
+                let hi = w.div_ceil(8) as usize;
+                let mut ns = vec![lo.saturating_sub(1), lo, hi, hi + 1];
+                ns.retain(|n| *n >= 1);
+                ns.dedup();
+                for n in ns {
+                    let mut vals = vec![(&one << w) - &one];
+                    if 8 * n as u32 <= w {
+                        vals.push((&one << (8 * n)) - &one);
+                        if 8 * (n as u32) < w {
+                            vals.push(&one << (8 * n));
+                            vals.push(&one << (w - 1));
+                        }
+                    }
+                    vals.dedup();
+                    for v in vals {
+                        cases.push(Case::fixed(
+                            &format!("boundary: BigUint({w}) = {v:#x}, into_bytes({n})"),
+                            vec![(Load(HType::BigUint(w)), vec![], vec!["x"]), (IntoBytes(n), vec!["x"], vec!["y"]), (Publish, vec!["y"], vec![])],
+                            vec![("x", MVal::Big(v))],
+                        ));
+                    }
+                }
+            }
+            for w in [8u32, 16, 24, 64, 96] {
+                let n = (w / 8) as usize;
+                let m = (&one << w) - &one;
+                for (a, b) in [(m.clone(), m.clone()), (m.clone(), one.clone()), (m.clone(), BigUint::from(0u32)), (&m >> 1u32, &m >> 1u32)] {
+                    for n in [n, n + 1] {
+                        cases.push(Case::fixed(
+                            &format!("boundary: BigUint({w}) {a:#x} + {b:#x} (bound {} bits), into_bytes({n})", w + 1),
+                            vec![
+                                (Load(HType::BigUint(w)), vec![], vec!["a", "b"]),
+                                (Add, vec!["a", "b"], vec!["s"]),
+                                (IntoBytes(n), vec!["s"], vec!["y"]),
+                                (Publish, vec!["y"], vec![]),
+                            ],
+                            vec![("a", MVal::Big(a.clone())), ("b", MVal::Big(b.clone()))],
+                        ));
+                    }
+                }
+            }
+            for n in [1usize, 2, 15, 16, 30, 31] {
+                for v in [(&one << (8 * n)) - &one, &one << (8 * n), p_native() - &one] {
+                    cases.push(Case::fixed(
+                        &format!("boundary: Native {v:#x}, into_bytes({n})"),
+                        vec![(Load(HType::Native), vec![], vec!["x"]), (IntoBytes(n), vec!["x"], vec!["y"]), (Publish, vec!["y"], vec![])],
+                        vec![("x", MVal::Native(v))],
+                    ));
+                }
+            }
+            p.enumerate(
+                "zkir.into_bytes.boundary",
+                "load (or sum of two loads) of every bit bound, into_bytes(n) for n around bound/8, values just inside and just outside 2^(8n): evaluator and circuit agree (bytes exposed, or both refuse); non-trivial if the value does not fit n bytes (range error expected) or sits exactly on the boundary",
+                cases,
+                16,
+                false,
+                |c| {
+                    let it = interpret(&c.program, &c.witness, poseidon_ref);
+                    let mut v = check_case(c, Depth::Full)?;
+                    v.nontrivial = true;
+                    v.classes.push(if it.value_error.is_some() { "expects:range-error".into() } else { "expects:bytes".into() });
+                    Ok(v)
+                },
+            );
+        }
+
         let small = CaseStrategy { cfg: GenCfg { max_len: 7, err_rate: 0, ..cfg.clone() }, poseidon: poseidon_ref, post: no_post };
         {
             let s = small.clone();
